@@ -280,6 +280,9 @@ func (c *Ctx) Violate(v Violation) {
 func (c *Ctx) Finish(out string) {
 	c.Flush()
 	c.Res.Distinct = len(c.Res.distinct)
+	if v, ok := c.Res.Extra["distinct_override"].(int); ok {
+		c.Res.Distinct = v
+	}
 	if c.Res.Samples == nil {
 		c.Res.Samples = []string{}
 	}
